@@ -141,7 +141,7 @@ def classify(product, s, m, K, call):
         parts.append("max_below_strike" if m < 0 else ("max_at_strike" if m == 0 else "max_above_strike"))
         parts.append("at_max" if m == s else "off_max")
     else:
-        parts.append("itm" if s > 0 else ("atm" if s == 0 else "otm"))
+        parts.append("spot_above_strike" if s > 0 else ("spot_at_strike" if s == 0 else "spot_below_strike"))
     parts.append("K1" if K == 1 else "Kne1")
     return "_".join(parts)
 
